@@ -102,8 +102,16 @@ func (s *site) report(removed map[blob.Ref]bool) func(sig, what string) {
 			s.viol("acked-lost/"+s.tail(), op+": "+what)
 		case "content":
 			s.viol("content/"+op+"/"+s.tail(), what)
-		case "enum-dup", "enum-paging":
+		case "enum-dup":
 			s.viol("enum-dup/"+s.tail(), what)
+		case "enum-paging":
+			if strings.HasSuffix(what, " 0 times") {
+				s.viol("enum-missing/"+s.tail(), what)
+			} else {
+				s.viol("enum-dup/"+s.tail(), what)
+			}
+		case "enum-missing":
+			s.viol("enum-missing/"+s.tail(), what)
 		case "absent-served":
 			// a blob the reference map says is absent: either never stored, or removed by an acknowledged remove
 			var hit blob.Ref
